@@ -17,6 +17,9 @@ from ..net import Endpoint, VLoop, install_clock, FIXMessage, FMsg, FTag, Connec
 POOL = ["a", "=", "a=b", "10=000", "9=12", "8=FIX.", "x8=FIX.4.4y", "35=A", "8=FIX.4.4\x029=5", " ", "a b", "|", "^", "~",
         "é", "ÿ", "Ж", "€", "\U0001F600", "aéb", " ", "x" * 300, "0", "-1", "1e3"]
 POOL += [chr(c) for c in range(0x20, 0x7f)] + [chr(c) for c in range(0xa0, 0x100, 7)]
+# text above U+00FF that a Unicode normalisation, case mapping or transliteration would turn into single-byte text: it cannot be
+# represented (must be refused, nothing written); what is counted in BodyLength / CheckSum must be what is written
+POOL += ["cafe\u0301", "A\u030a", "\u212a", "\u212b", "\ufb01", "\uff21", "\u2160", "\u1e9e", "\u0131", "\u017f", "\u2126x", "o\u0308\u00e9"]
 
 
 def _send_case(a):
